@@ -8,6 +8,7 @@ def unit(name, defs, bound, backend="z3,cvc5", quick=True, timeout=280, funcs=""
     print("name: equiv.%s" % name)
     print("define: %s" % defs)
     print("src: builtin_hashes.c")
+    print("native: self")
     print("backend: %s" % backend)
     print("tier: B")
     print("bound: %s" % bound)
@@ -62,6 +63,7 @@ print("""/*@unit
 name: equiv.fnv.prime_lemma
 define: U_FNV_LEMMA
 src: builtin_hashes.c
+native: self
 backend: sat,z3
 tier: P
 timeout: 120
